@@ -38,15 +38,24 @@ struct Universe {
     p: Vec<BlockView>,
     q: Vec<BlockView>,
     cands: Vec<Cand>,
+    shift: u64,
 }
 
 fn epoch_since(n: u64, i: u64, l: u64) -> u64 {
     EPOCH | EpochNumberWithFraction::new_unchecked(n, i, l).full_value()
 }
 
-fn build(ctx: &Ctx, cons: &Consensus) -> Result<Universe, String> {
+/// `shift` empty blocks precede the context: the context transactions are committed in block
+/// 3 + shift, the tip is 5 + shift and the candidates are committed in block h = 6 + shift, i.e. at
+/// every position of a (4-block) epoch; every since threshold is computed from h.
+fn build(ctx: &Ctx, cons: &Consensus, shift: u64) -> Result<Universe, String> {
     set_time(time_for_height(NOW_HEIGHT));
-    let mut forge = Forge::new(&ctx.scratch.join("c04-forge"), cons)?;
+    let mut forge = Forge::new(&ctx.scratch.join(format!("c04-forge-{shift}")), cons)?;
+    let h = 6 + shift;
+    let created = 3 + shift;
+    // epoch positions (flat world: 4-block epochs)
+    let ep = |n: u64| (n / 4, n % 4);
+    let ep_since = |n: u64| epoch_since(ep(n).0, ep(n).1, 4);
     let g = genesis_cells(cons);
     let (code, locked) = witness_lock_cells(cons);
     let as_code = always_success_dep(cons).out_point();
@@ -131,30 +140,38 @@ fn build(ctx: &Ctx, cons: &Consensus) -> Result<Universe, String> {
     // 5 + 1 + closest = 8.
     {
         let t = plain(&g[3..4], 40);
-        add("since/absolute-block=6", vec![with_since(&t, 6)], true, Some(true));
-        add("since/absolute-block=7", vec![with_since(&t, 7)], false, Some(false));
-        add("since/absolute-block=8", vec![with_since(&t, 8)], false, Some(false));
-        add("since/absolute-block=9", vec![with_since(&t, 9)], false, Some(false));
-        let r = plain(&[a(1)], 41); // created in block 3
+        add(&format!("since/absolute-block={}", h), vec![with_since(&t, h)], true, Some(true));
+        add(&format!("since/absolute-block={}", h + 1), vec![with_since(&t, h + 1)], false, Some(false));
+        add(&format!("since/absolute-block={}", h + 2), vec![with_since(&t, h + 2)], false, Some(false));
+        add(&format!("since/absolute-block={}", h + 3), vec![with_since(&t, h + 3)], false, Some(false));
+        let r = plain(&[a(1)], 41); // created in block 3 + shift
         add("since/relative-block=3", vec![with_since(&r, REL | 3)], true, Some(true));
         add("since/relative-block=4", vec![with_since(&r, REL | 4)], false, Some(false));
         add("since/relative-block=5", vec![with_since(&r, REL | 5)], false, Some(false));
         add("since/relative-block=6", vec![with_since(&r, REL | 6)], false, Some(false));
-        add("since/absolute-epoch=1+1/4", vec![with_since(&t, epoch_since(1, 1, 4))], true, Some(true));
-        add("since/absolute-epoch=1+2/4", vec![with_since(&t, epoch_since(1, 2, 4))], true, Some(false));
-        add("since/absolute-epoch=1+3/4", vec![with_since(&t, epoch_since(1, 3, 4))], false, Some(false));
-        // the cell was created in block 3 = epoch 0 index 3 of 4
+        // the block path judges at the commit position (block h), the pool at the tip's (h - 1)
+        add("since/absolute-epoch=tip-position", vec![with_since(&t, ep_since(h - 1))], true, Some(true));
+        add("since/absolute-epoch=commit-position", vec![with_since(&t, ep_since(h))], true, Some(false));
+        add("since/absolute-epoch=commit-position+1/4", vec![with_since(&t, ep_since(h + 1))], false, Some(false));
+        // the cell was created three blocks (3/4 of an epoch) below the commit position
         add("since/relative-epoch=3/4", vec![with_since(&r, REL | epoch_since(0, 3, 4))], true, Some(false));
         add("since/relative-epoch=2/4", vec![with_since(&r, REL | epoch_since(0, 2, 4))], true, Some(true));
         add("since/relative-epoch=1", vec![with_since(&r, REL | epoch_since(1, 0, 1))], false, Some(false));
+        // median time: the median of the three blocks below the commit position is block h - 2's timestamp
+        let median_s = time_for_height(h - 2) / 1000;
+        add("since/absolute-time=median", vec![with_since(&t, TIME | median_s)], true, Some(true));
+        add("since/absolute-time=median+1s", vec![with_since(&t, TIME | (median_s + 1))], false, Some(false));
+        // relative: measured from the timestamp of the block that created the cell (h - 3): 8 seconds
+        add("since/relative-time=8s", vec![with_since(&r, REL | TIME | 8)], true, Some(true));
+        add("since/relative-time=9s", vec![with_since(&r, REL | TIME | 9)], false, Some(false));
         add("since/epoch-index-not-below-length", vec![with_since(&t, epoch_since(0, 5, 4))], false, Some(false));
         add("since/absolute-time-long-ago", vec![with_since(&t, TIME | 1)], true, Some(true));
         add("since/absolute-time-far-future", vec![with_since(&t, TIME | (time_for_height(NOW_HEIGHT) / 1000 + 86_400))], false, Some(false));
         add("since/relative-time-zero", vec![with_since(&r, REL | TIME)], true, Some(true));
         add("since/relative-time-one-day", vec![with_since(&r, REL | TIME | 86_400)], false, Some(false));
         let tf = plain(&g[3..4], 42);
-        add("pool-fresh/since-absolute-block=8", vec![with_since(&tf, 8)], false, Some(true));
-        add("pool-fresh/since-absolute-block=9", vec![with_since(&tf, 9)], false, Some(false));
+        add(&format!("pool-fresh/since-absolute-block={}", h + 2), vec![with_since(&tf, h + 2)], false, Some(true));
+        add(&format!("pool-fresh/since-absolute-block={}", h + 3), vec![with_since(&tf, h + 3)], false, Some(false));
         let rf = plain(&[a(1)], 43);
         add("pool-fresh/since-relative-block=5", vec![with_since(&rf, REL | 5)], false, Some(true));
         add("pool-fresh/since-relative-block=6", vec![with_since(&rf, REL | 6)], false, Some(false));
@@ -180,8 +197,14 @@ fn build(ctx: &Ctx, cons: &Consensus) -> Result<Universe, String> {
 
     // ---- the context: p1 proposes the context txs, p3 commits them and proposes every candidate
     let genesis = cons.genesis_hash();
-    let mut p = vec![];
+    let mut lead = vec![];
     let mut parent = genesis.clone();
+    for _ in 0..shift {
+        let b = forge.build_on(&parent, &BlockSpec { miner: 1, ..Default::default() })?;
+        parent = b.hash();
+        lead.push(b);
+    }
+    let mut p = vec![];
     for n in 1..=5u64 {
         let mut spec = BlockSpec { miner: 1, ..Default::default() };
         match n {
@@ -231,7 +254,14 @@ fn build(ctx: &Ctx, cons: &Consensus) -> Result<Universe, String> {
     // the id of "header-dep/tip" depends on p5's hash, which depends on the proposals: it cannot be
     // proposed in p3; drop it and use p4's parent instead
     cands.retain(|c| c.name != "header-dep/tip");
-    Ok(Universe { p, q, cands })
+    let _ = created;
+    if shift > 0 {
+        for c in cands.iter_mut() {
+            c.name = format!("tip{}/{}", 5 + shift, c.name);
+        }
+    }
+    let p: Vec<BlockView> = lead.into_iter().chain(p.into_iter()).collect();
+    Ok(Universe { p, q, cands, shift })
 }
 
 fn block_for(forge_node: &Node, parent6: &BlockView, txs: &[TransactionView]) -> BlockView {
@@ -252,9 +282,9 @@ pub fn meta(_tier: Tier) -> Meta {
     Meta {
         id: "C04",
         level: "exploration",
-        rule: "context p1..p5 (flat world with the witness-dependent lock in genesis and one epoch of cellbase maturity): cells created in block 3, a spent genesis cell, a dep-group cell with a good and a bad member list, a cell under a lock whose code does not exist; every candidate id proposed in p3. Catalogue (for each rule the boundary and the violation): inputs unknown / dead / out of range / twice / created in block 3 / created earlier or later in the same block; cell deps live / unknown / dead / group / group with unknown member / unknown group / none; header deps main-chain / unknown / side-branch; capacity outputs = inputs, +1, output exactly occupied, occupied-1; since absolute block 6..9, relative block 3..6, absolute epoch 1+1/4..1+3/4, relative epoch 2/4, 3/4, 1, malformed epoch, absolute / relative time far past and far future, reserved flag, metric 11, zero; lock code missing, witness that makes the lock succeed / fail / absent, output type code missing. Each candidate is committed in block 6 on a node that received p1..p5 directly and on a node that after p3 followed a block q4 spending cells created in block 3 and was reorganised back by p4, p5 (those cells are restored by the rollback); and submitted to the pool of a node at tip 5. Expected: block verdict by construction (commit position 6, epoch 1+2/4); pool verdict by construction at the position the pool assumes (block 6 for a proposed id, block 8 for the unproposed variants, the tip's epoch); both nodes agree; a refused block leaves the tip unchanged.",
-        assumptions: &["zero-fee and same-block parent/child candidates are not compared in the pool (fee policy / one submission at a time)", "cellbase maturity is exercised in C14's maturity family", "median-time since values are taken far from the boundary"],
-        bounds: json!({"commit_position": 6}),
+        rule: "the context is built with 0..3 leading empty blocks: tip 5..8, candidates committed in block h = 6..9, i.e. at every position of an epoch, every since threshold computed from h (absolute block h..h+3; absolute epoch at the tip position / commit position / one block later; absolute time = median of the three blocks below h and +1 s; relative time 8 s / 9 s from the creating block's timestamp). Per position: context p1..p5 (flat world with the witness-dependent lock in genesis and one epoch of cellbase maturity): cells created in block 3, a spent genesis cell, a dep-group cell with a good and a bad member list, a cell under a lock whose code does not exist; every candidate id proposed in p3. Catalogue (for each rule the boundary and the violation): inputs unknown / dead / out of range / twice / created in block 3 / created earlier or later in the same block; cell deps live / unknown / dead / group / group with unknown member / unknown group / none; header deps main-chain / unknown / side-branch; capacity outputs = inputs, +1, output exactly occupied, occupied-1; since absolute block 6..9, relative block 3..6, absolute epoch 1+1/4..1+3/4, relative epoch 2/4, 3/4, 1, malformed epoch, absolute / relative time far past and far future, reserved flag, metric 11, zero; lock code missing, witness that makes the lock succeed / fail / absent, output type code missing. Each candidate is committed in block 6 on a node that received p1..p5 directly and on a node that after p3 followed a block q4 spending cells created in block 3 and was reorganised back by p4, p5 (those cells are restored by the rollback); and submitted to the pool of a node at tip 5. Expected: block verdict by construction (commit position 6, epoch 1+2/4); pool verdict by construction at the position the pool assumes (block 6 for a proposed id, block 8 for the unproposed variants, the tip's epoch); both nodes agree; a refused block leaves the tip unchanged.",
+        assumptions: &["zero-fee and same-block parent/child candidates are not compared in the pool (fee policy / one submission at a time)", "cellbase maturity is exercised in C14's maturity family", "flat world: every epoch has four blocks (epochs of different lengths: dynamic-epoch maturity family)"],
+        bounds: json!({"commit_positions": [6, 7, 8, 9]}),
     }
 }
 
@@ -270,11 +300,13 @@ pub fn run(ctx: &Ctx) -> Report {
         report.outcomes.insert(0);
         report.outcomes.insert(1);
     }
-    let mut go = || -> Result<(), String> {
-        let u = build(ctx, &cons)?;
+    let go = |shift: u64, report: &mut Report| -> Result<(), String> {
+        let u = build(ctx, &cons, shift)?;
+        let tip_i = 4 + shift as usize;
+        let ctx3 = 3 + u.shift;
         set_time(time_for_height(NOW_HEIGHT));
         let boot = |tag: &str, pool: bool| -> Result<Node, String> {
-            let dir = ctx.scratch.join(format!("c04-{tag}"));
+            let dir = ctx.scratch.join(format!("c04-{tag}-{shift}"));
             let _ = std::fs::remove_dir_all(&dir);
             let mut opts = NodeOpts::new(cons.clone());
             if pool {
@@ -294,7 +326,7 @@ pub fn run(ctx: &Ctx) -> Report {
                 n.process(b).map_err(|e| format!("p{}: {e}", b.number()))?;
                 // the node that takes a detour: after p3 it follows q4 (which spends cells created
                 // in block 3), then p4 and p5 reorganise it back
-                if b.number() == 3 && std::ptr::eq(n, &via_reorg) {
+                if b.number() == ctx3 && std::ptr::eq(n, &via_reorg) {
                     for qb in &u.q {
                         n.process(qb).map_err(|e| format!("q: {e}"))?;
                     }
@@ -303,7 +335,7 @@ pub fn run(ctx: &Ctx) -> Report {
                     }
                 }
             }
-            if n.tip().hash() != u.p[4].hash() {
+            if n.tip().hash() != u.p[tip_i].hash() {
                 return Err("context tip not reached".into());
             }
         }
@@ -333,7 +365,7 @@ pub fn run(ctx: &Ctx) -> Report {
                 }
                 verdicts.push(match &v { Ok(b) => format!("Ok({b})"), Err(e) => err_kind(&e.to_string()) });
                 if moved {
-                    node.chain().truncate(u.p[4].hash()).map_err(|e| format!("truncate: {e}"))?;
+                    node.chain().truncate(u.p[tip_i].hash()).map_err(|e| format!("truncate: {e}"))?;
                 }
             }
             if verdicts.len() == 2 && verdicts[0] != verdicts[1] {
@@ -368,11 +400,20 @@ pub fn run(ctx: &Ctx) -> Report {
         direct.shutdown();
         via_reorg.shutdown();
         builder.shutdown();
+        pooln.shutdown();
         Ok(())
     };
     if which.as_deref().map(|w| !w.starts_with("dyn-maturity/") && !w.starts_with("hardfork/")).unwrap_or(true) {
-        if let Err(e) = go() {
-            report.machinery_errors.push(e);
+        for shift in 0..4u64 {
+            if let Some(w) = &which {
+                let prefix = format!("tip{}/", 5 + shift);
+                if (shift == 0 && w.starts_with("tip")) || (shift > 0 && !w.starts_with(&prefix)) {
+                    continue;
+                }
+            }
+            if let Err(e) = go(shift, &mut report) {
+                report.machinery_errors.push(format!("context with {shift} leading blocks: {e}"));
+            }
         }
     }
     if which.as_deref().map(|w| w.starts_with("hardfork/")).unwrap_or(true) {
